@@ -63,6 +63,7 @@ fn parse_match(it: &mut LexIterator) -> ParseResult {
 }
 
 pub fn parse_match_cases(it: &mut LexIterator) -> ParseResult<Vec<AST>> {
+    it.eat_while(&Token::NL);
     let start = it.eat(&Token::Indent, "match cases")?;
     let mut cases = vec![];
     it.eat_while(&Token::NL); // there may be blank lines before, between and after cases
